@@ -126,6 +126,10 @@ def diff_dump(a, b, net, ignore=()):
         if x is None or y is None:
             return {"space": fmt_space(net, k), "field": "node-missing", "resumed": str(x)[:200], "uninterrupted": str(y)[:200]}
         for nm, u, v in zip(FIELDS, x, y):
+            if nm in ("seeds", "sets") and "candidates" in ignore and (u is None or v is None):
+                # with legitimately different candidate lists one run may already know "no attractor here"
+                # (empty candidates are propagated to seeds) while the other has not computed seeds yet
+                continue
             if u != v and nm not in ignore:
                 return {"space": fmt_space(net, k), "field": nm, "resumed": str(u)[:200], "uninterrupted": str(v)[:200]}
     return None
